@@ -47,8 +47,16 @@ def write_mseed(path, rng, fs, seconds, n=None):
     import obspy
     n = int(fs * seconds) + 1 if n is None else int(n)
     st = obspy.Stream()
+    # what the file stores: digitiser counts (most files), counts riding on an offset beyond 2^24 (a 32-bit digitiser), or
+    # double-precision ground velocity (a file that was corrected and saved again)
+    stored = str(rng.choice(["counts", "counts", "counts-on-a-large-offset", "float64-ground-velocity"]))
     for ch in ("BHN", "BHE", "BHZ"):
-        data = (rng.standard_normal(n) * 1000).astype(np.int32)
+        if stored == "counts":
+            data = (rng.standard_normal(n) * 1000).astype(np.int32)
+        elif stored == "counts-on-a-large-offset":
+            data = (rng.standard_normal(n) * 300 + 3.0e7).astype(np.int32)
+        else:
+            data = rng.standard_normal(n) * 1.0e-6
         tr = obspy.Trace(data=data)
         tr.stats.sampling_rate = float(fs)
         tr.stats.channel = ch
